@@ -218,6 +218,21 @@ fn lsan_leak() -> bool {
     false
 }
 
+thread_local! {
+    static PROGRESS_FILE: std::cell::RefCell<Option<(std::fs::File, u64)>> = const { std::cell::RefCell::new(None) };
+}
+/// called by the C18 enumeration before each fault-injected execution: a crash is then pinned to
+/// (run index, injection point)
+pub fn note_fault(fault: u64) {
+    PROGRESS_FILE.with(|p| {
+        if let Some((f, run)) = p.borrow_mut().as_mut() {
+            use std::io::Seek;
+            let _ = f.seek(std::io::SeekFrom::Start(0));
+            let _ = f.write_all(format!("{:020} {:020}\n", run, fault).as_bytes());
+        }
+    })
+}
+
 struct Found {
     v: Violation,
     trace: Trace,
@@ -248,6 +263,9 @@ fn worker(args: &[String]) -> i32 {
     let mut harness_errors: Vec<String> = Vec::new();
     let progress_path = format!("{}.progress", out);
     let mut progress = std::fs::File::create(&progress_path).ok();
+    if let Ok(f2) = std::fs::OpenOptions::new().write(true).open(&progress_path) {
+        PROGRESS_FILE.with(|p| *p.borrow_mut() = Some((f2, from)));
+    }
     for i in from..to {
         if start.elapsed().as_secs() >= deadline_s {
             stats.bump("deadline_hit");
@@ -256,8 +274,13 @@ fn worker(args: &[String]) -> i32 {
         if let Some(f) = progress.as_mut() {
             use std::io::Seek;
             let _ = f.seek(std::io::SeekFrom::Start(0));
-            let _ = f.write_all(format!("{:020}\n", i).as_bytes());
+            let _ = f.write_all(format!("{:020} {:020}\n", i, 0).as_bytes());
         }
+        PROGRESS_FILE.with(|p| {
+            if let Some((_, run)) = p.borrow_mut().as_mut() {
+                *run = i;
+            }
+        });
         let t = gen::gen(&prop, seed, i, tier);
         let r = run_case(&t);
         runs += 1;
@@ -574,6 +597,14 @@ fn shrink_crash(v: &Value, tmp: &str) -> Value {
     best
 }
 
+fn read_progress(path: &str) -> Option<(u64, u64)> {
+    let s = std::fs::read_to_string(path).ok()?;
+    let mut it = s.split_whitespace();
+    let run = it.next()?.parse::<u64>().ok()?;
+    let fault = it.next().and_then(|x| x.parse::<u64>().ok()).unwrap_or(0);
+    Some((run, fault))
+}
+
 fn load_known(path: &str) -> Vec<Value> {
     std::fs::read_to_string(path)
         .ok()
@@ -669,9 +700,12 @@ fn check(args: &[String]) -> i32 {
         if o.is_err() {
             // a worker that had to be killed hung inside one run (an operation that never returns
             // and calls no user code escapes the in-process watchdog)
-            let progress = std::fs::read_to_string(format!("{}.progress", out)).ok().and_then(|s| s.trim().parse::<u64>().ok());
-            if let Some(idx) = progress {
-                let t = gen::gen(&prop, seed, idx, tier);
+            let progress = read_progress(&format!("{}.progress", out));
+            if let Some((idx, fault)) = progress {
+                let mut t = gen::gen(&prop, seed, idx, tier);
+                if fault != 0 {
+                    t.faults = vec![fault];
+                }
                 violations.push(json!({
                     "property": prop.as_str(),
                     "oracle": "process_hang", "step": -1, "op": "?", "class": "crash",
@@ -694,11 +728,14 @@ fn check(args: &[String]) -> i32 {
         let crashed = status.code().is_none();
         if crashed || status.code() != Some(0) {
             // a worker killed by a signal (wild pointer, double-panic abort) is itself a finding
-            let progress = std::fs::read_to_string(format!("{}.progress", out)).ok().and_then(|s| s.trim().parse::<u64>().ok());
+            let progress = read_progress(&format!("{}.progress", out));
             let stderr = o.as_ref().map(|o| String::from_utf8_lossy(&o.stderr).to_string()).unwrap_or_default();
             match (crashed, progress) {
-                (true, Some(idx)) => {
-                    let t = gen::gen(&prop, seed, idx, tier);
+                (true, Some((idx, fault))) => {
+                    let mut t = gen::gen(&prop, seed, idx, tier);
+                    if fault != 0 {
+                        t.faults = vec![fault];
+                    }
                     violations.push(json!({
                         "property": prop.as_str(),
                         "oracle": "process_crash", "step": -1, "op": "?", "class": "crash",
